@@ -48,6 +48,16 @@ def run(cfg, ops, impl='diskcache', seed=0, tid=1):
                     ret = R('true' if c.add(a['k'], a['v'], version=ver, **tkw) else 'false')
                 elif name == 'get':
                     r = c.get(a['k'], version=ver); ret = R('none') if r is None else R('val', [r])
+                elif name == 'read':
+                    # DjangoCache extension: read(key, version) - the value (a handle for a value kept in a file), KeyError when absent
+                    try:
+                        r = c.read(a['k'], version=ver)
+                        if hasattr(r, 'read'):
+                            with r:
+                                r = r.read()
+                        ret = R('val', [r]) if type(r) is int else R('weird')
+                    except KeyError:
+                        ret = R('KeyError')
                 elif name == 'touch':
                     ret = R('true' if c.touch(a['k'], version=ver, **tkw) else 'false')
                 elif name == 'delete':
@@ -140,7 +150,8 @@ def run(cfg, ops, impl='diskcache', seed=0, tid=1):
 
 def random_ops(rng, n):
     ops = []
-    tms = [['d'], ['d'], ['n'], ['t', 0], ['t', -1], ['t', 2], ['t', 5], ['t', 1]]
+    # 2592000 s = 30 days: the bound above which memcached-style backends read a timeout as an absolute time
+    tms = [['d'], ['d'], ['n'], ['t', 0], ['t', -1], ['t', 2], ['t', 5], ['t', 1], ['d'], ['t', 2], ['t', 5], ['t', 2592001]]
     for _ in range(n):
         r = rng.random()
         k = rng.choice(KEYS)
@@ -151,8 +162,10 @@ def random_ops(rng, n):
             o = {'op': 'set', 'a': {'k': k, 'v': v, 'tm': tm, 'ver': ver}}
         elif r < 0.24:
             o = {'op': 'add', 'a': {'k': k, 'v': v, 'tm': tm, 'ver': ver}}
-        elif r < 0.38:
+        elif r < 0.36:
             o = {'op': 'get', 'a': {'k': k, 'ver': ver}}
+        elif r < 0.38:
+            o = {'op': 'read', 'a': {'k': k, 'ver': ver}}
         elif r < 0.46:
             o = {'op': 'touch', 'a': {'k': k, 'tm': tm, 'ver': ver}}
         elif r < 0.52:
@@ -184,6 +197,6 @@ def random_ops(rng, n):
         elif r < 0.94:
             o = rng.choice([{'op': 'evict', 'a': {'tag': rng.choice([1, 2])}}, {'op': 'expire', 'a': {}}, {'op': 'cull', 'a': {}}])
         else:
-            o = {'op': 'tick', 'a': {'n': rng.choice([1, 1, 2, 3])}}
+            o = {'op': 'tick', 'a': {'n': rng.choice([1, 1, 2, 3] * 6 + [2592000])}}
         ops.append(o)
     return ops
